@@ -215,8 +215,29 @@ class Analyzer:
     def _facts(self, t, guards, d):
         op = t.op
         if op == "ifexp":
-            c, a, b = t.args
-            return meet([self.facts(a, guards + [(c, True)], d), self.facts(b, guards + [(c, False)], d)])
+            # a decision tree (nested conditional expressions, e.g. the merged returns of a helper): a None leaf is treated
+            # like a None operand of a phi - dropped when a guard excludes None for the tree (or an enclosing subtree)
+            parts = []
+
+            def leaves(x, g, roots):
+                if x.op == "ifexp":
+                    c, a, b = x.args
+                    yield from leaves(a, g + [(c, True)], roots + [x])
+                    yield from leaves(b, g + [(c, False)], roots + [x])
+                else:
+                    yield x, g, roots
+            may_none = False
+            for x, g, roots in leaves(t, list(guards), []):
+                if x == tm.NONE:
+                    if not any(self._none_excluded(r, guards) for r in roots):
+                        may_none = True
+                    continue
+                parts.append(self.facts(x, g, d))
+            if not may_none:
+                return meet(parts)
+            # the facts describe the array when there is one; None is recorded separately
+            f = meet(parts) if [p for p in parts if p is not None] else Facts(True, True, UNK, ("none",))
+            return f.copy(maybe_none=True, why=f.why + ["may be None"])
         if op == "phi":
             parts = []
             for a in t.args:
